@@ -56,6 +56,8 @@ from . import c15_text
 from . import c15_ps
 from . import c15_tree
 from . import c15_ffv
+from . import c15_det
+from . import c15_noise
 
 FIXED = [True, True, True, True]
 FLAGS = ["unitary-fields", "filter-zero", "shared-table", "expression"]
@@ -2910,6 +2912,16 @@ def load_corpus():
     return out
 
 
+DETC_BRANCHES = ["detc-ctor-rejects", "detc-cap-zero", "detc-negative-cap", "detc-out-of-range",
+                 "detc-wires-none-cap-dropped", "detc-type-Threshold", "detc-type-PNR", "detc-type-PPNR",
+                 "detc-how-zip", "detc-how-list", "detc-identical", "detc-reader-rejects"]
+
+
+NOISEC_BRANCHES = ["noisec-ctor-rejects", "noisec-set-rejected-value", "noisec-set-keyerror", "noisec-set-typeerror",
+                   "noisec-reset-to-default", "noisec-pi-end", "noisec-pi-next-double-refused", "noisec-how-zip",
+                   "noisec-how-list", "noisec-identical", "noisec-reader-rejects"]
+
+
 def run(chk: core.Check):
     chk.rule = ("random objects of every serialisable type built with the public constructors: circuits nested up to "
                 "depth 4 with fixed / variable (with and without value) / expression parameters, shared variables, "
@@ -2930,7 +2942,12 @@ def run(chk: core.Check):
                 "inside experiments (one or two, shared detectors, components after them, shared variables); entry points text "
                 "(compress on/off/default), binary, base64, file; plus tampered messages. distinct = distinct "
                 "(family, spec, entry); non-trivial = nested or parametrised circuit / experiment with components "
-                "and heralds, detectors or filter / any stand-alone object except bare ports and post-selections")
+                "and heralds, detectors or filter / any stand-alone object except bare ports and post-selections. "
+                "Extension 8: Detector(n_wires, max_detections) over all int-or-None argument pairs from a pool "
+                "(exhaustive over the pool, plus random) through the constructor and the factories - which calls raise, "
+                "state, type, message fields, rebuilt object, detect(0..4); NoiseModel constructor calls followed by "
+                "set_value histories - which calls raise and what, __dict__(), JSON payload, rebuilt object, native ==; "
+                "tampered detector messages and noise payloads")
     chk.assumptions = [
         "protobuf wire encoding, base64, zlib and json are trusted (DESIGN section 8); the model starts at message fields",
         "float(expression) (sympy) is an external function; Expression sub-parameters are plain Parameters",
@@ -2950,8 +2967,16 @@ def run(chk: core.Check):
         "readers accept a sub-language of what the real readers accept (compared one way on damaged texts)",
         "containers: keys are strings or serialisable objects hashed by value; int/float/bool/None keys (json turns "
         "them into strings), tuples, and strings that start with ':PCVL:' are boundaries outside the generator",
-        "Detector(max_detections=0), empty parameter names, constant Expressions and names sympy treats as constants "
-        "are boundary inputs outside the generator",
+        "empty parameter names, constant Expressions and names sympy treats as constants are boundary inputs outside "
+        "the generator",
+        "extension 8, Detector: every int-or-None argument pair of the constructor and the factories is generated "
+        "(negative caps, cap 0, values around +-2^31); Detector(n, 0) is the stated boundary (`max_detections or None`: "
+        "read back as Detector(n, n), theorem DetC.roundtrip_detector_exact_iff) - there everything but the cap must "
+        "survive; bool / float arguments and a detector without a name (protobuf TypeError) are outside",
+        "extension 8, NoiseModel: constructor arguments and set_value histories are numbers (int / float) into any "
+        "name and bools into g2_distinguishable; a bool into a float field (Python's bool is a Number: accepted and "
+        "stored as a bool) and None are outside the model; tampered payloads carry one defect each (the order in "
+        "which several defects are reported is not modelled)",
     ]
     chk.required_branches = ["matrix-not-c-contiguous", "nested-shared-param", "expr-defined", "expr-symbolic", "expr-two-slots",
                              "unitary-polarised", "unitary-named", "filter-zero", "filter-none", "max-error-zero",
@@ -2979,7 +3004,7 @@ def run(chk: core.Check):
                              "port-twin-objects", "port-swap", "port-rerouted-by-component",
                              "port-output-declared-first", "port-sides-differ-on-a-mode",
                              "tree-model", "tree-object-key", "tree-deep", "tree-compress-list", "tree-file",
-                             "ffcp-stale-max", "ffc-tables-model", "ffc-values-beyond-precision", "f32-model"]
+                             "ffcp-stale-max", "ffc-tables-model", "ffc-values-beyond-precision", "f32-model"] + DETC_BRANCHES + NOISEC_BRANCHES
     chk.lean = core.LeanDriver("C15")
     rng = chk.rng
     pc().random_seed(chk.seed)
@@ -2995,6 +3020,12 @@ def run(chk: core.Check):
     with tempfile.TemporaryDirectory(prefix="c15-") as tmpdir:
         for spec in load_corpus():
             chk.branch("corpus")
+            if spec.get("fam") in ("detc", "noisec"):
+                mod_ = c15_det if spec["fam"] == "detc" else c15_noise
+                res = mod_.check_cases(chk.lean, [spec["case"]], {})
+                if res is not None:
+                    chk.fail(res[0], res[1], res[2], {"spec": spec})
+                continue
             handle(chk, spec, tmpdir, stats=False, shrink=False)
         specs = []
         for _ in range(n_circ):
@@ -3032,6 +3063,29 @@ def run(chk: core.Check):
             chk.fail(res[0], res[1], res[2], {"spec": {"fam": "f32"}})
         else:
             chk.branch("f32-model")
+        # extension 8: the constructor layer of Detector (Model/C15Det.lean)
+        counter = {}
+        res = c15_det.check_cases(chk.lean, c15_det.gen_cases(rng, chk.pick(300, 4000)), counter)
+        if res is None:
+            res = c15_det.check_tampered(chk.lean, rng, chk.pick(150, 1500), counter)
+        for k_, n_ in counter.items():
+            chk.count("detector-ctor", k_, n_)
+            if k_ in DETC_BRANCHES and n_:
+                chk.branch(k_)
+        if res is not None:
+            chk.fail(res[0], res[1], res[2], {"spec": {"fam": "detc", "case": res[3]}})
+        # extension 8: the validation layer of NoiseModel (Model/C15Noise.lean)
+        counter = {}
+        res = c15_noise.check_cases(chk.lean, c15_noise.fixed_cases() +
+                                    [c15_noise.gen_case(rng) for _ in range(chk.pick(500, 6000))], counter)
+        if res is None:
+            res = c15_noise.check_tampered(chk.lean, rng, chk.pick(160, 1600), counter)
+        for k_, n_ in counter.items():
+            chk.count("noise-validation", k_, n_)
+            if k_ in NOISEC_BRANCHES and n_:
+                chk.branch(k_)
+        if res is not None:
+            chk.fail(res[0], res[1], res[2], {"spec": {"fam": "noisec", "case": res[3]}})
         chk.extra["failures_by_signature"] = seen_sigs
 
 
@@ -3046,6 +3100,22 @@ def replay(chk, data):
                 chk.fail(res[0], res[1], res[2], {"spec": spec})
         elif spec.get("fam") == "f32":
             res = c15_ffv.check_f32(chk.lean, chk.rng, 2000)
+            if res is not None:
+                chk.fail(res[0], res[1], res[2], {"spec": spec})
+        elif spec.get("fam") == "noisec":
+            case = spec["case"]
+            if "pb" in case:
+                res = c15_noise.check_tampered(chk.lean, chk.rng, 400, {})
+            else:
+                res = c15_noise.check_cases(chk.lean, [case], {}, do_shrink=False)
+            if res is not None:
+                chk.fail(res[0], res[1], res[2], {"spec": spec})
+        elif spec.get("fam") == "detc":
+            case = spec["case"]
+            if "f" in case or "fs" in case:
+                res = c15_det.check_tampered(chk.lean, chk.rng, 400, {})
+            else:
+                res = c15_det.check_cases(chk.lean, [case], {})
             if res is not None:
                 chk.fail(res[0], res[1], res[2], {"spec": spec})
         else:
